@@ -508,6 +508,10 @@ def macros_tie(ctx):
     if not os.path.exists(tr):
         ctx.note("check_macros translator not present yet")
         return
-    rc, out = vlib.sh(["python3", tr, "--check"], timeout=120)
+    rc, out = vlib.sh(["python3", tr, "--check"], timeout=700)
     if rc != 0:
         ctx.tie_broken("translator-check_macros", out[-1500:])
+    else:
+        ctx.note(out.strip()[-200:])
+        if "changed textually" in out and vlib.REPO == "/repo":
+            vlib.sh(["python3", tr], timeout=60)      # keep the generated file in step with the tree
